@@ -385,7 +385,10 @@ func (p *Parser) printStatement() (StatementPrint, error) {
 	startToken := *p.previous
 
 	args := make([]Expr, 0)
-	for !p.atStatementEnd() {
+	// atStatementEnd consumes a ';', so its answer has to be remembered: asking
+	// again after a bare `print;` would say no
+	ended := p.atStatementEnd()
+	for !ended {
 		expr, err := p.expression()
 		if err != nil {
 			return StatementPrint{}, err
@@ -396,9 +399,10 @@ func (p *Parser) printStatement() (StatementPrint, error) {
 		} else {
 			break
 		}
+		ended = p.atStatementEnd()
 	}
 
-	if p.atStatementEnd() {
+	if ended || p.atStatementEnd() {
 		p.didEndStatement = true
 	}
 	return StatementPrint{startToken, args}, nil
